@@ -71,4 +71,67 @@ func init() {
 			ruleFMT6(c)
 		},
 	})
+
+	register(&PropSpec{
+		ID:    "C08",
+		Level: "other",
+		Explanation: "Decides the three mechanisms that carry the non-greedy mark from the grammar to the runtime, each a necessary condition: the loop exit state is marked for exactly the cardinalities the front end produces for '*?' and '+?' (NG-1, with a repo-wide contradiction rule: a comparison of a switch tag with a constant outside the enclosing case list is constantly false); wherever a DFA state's Accept is accumulated from constituent states NonGreedy is accumulated from the same state (NG-2); the flag reaches the table and the runtime consumes input only when it is clear (FMT-4, NG-3). " +
+			"NOT decided: that marking the loop exit yields 'first occurrence of the terminator' for every body/terminator pair; interaction of the mark with state merging in optimize.",
+		Run: func(c *Ctx) {
+			ruleNG1(c)
+			ruleNG2(c)
+			ruleFMT4(c)
+			ruleNG3(c)
+			ruleLEX1(c)
+		},
+	})
+	register(&PropSpec{
+		ID:    "C05",
+		Level: "other",
+		Explanation: "The precedence decision of resolveConflicts is abstracted to a table (condition => removed action) and compared with the documented one (PREC-1); the qualifier's transport from grammar text to lr1.Prod is checked arm by arm (PREC-2); shift actions remember their productions (PREC-3); the guards that confine precedence to one rule with explicit levels are present (CFL-3). " +
+			"NOT decided: the grouping of concrete operator chains (needs running generated parsers).",
+		Run: func(c *Ctx) {
+			rulePREC1(c)
+			rulePREC2(c)
+			rulePREC3(c)
+			ruleCFL3(c)
+		},
+	})
+	register(&PropSpec{
+		ID:    "C01",
+		Level: "other",
+		Explanation: "Language equality for all grammars is not a static fact about lox's source. Decided are the structural ways in which a worklist LALR construction loses lookaheads (hence reduce actions, hence sentences): recursion guards that truncate FIRST (LALR-1), change-reporting mutators skipped by short-circuit evaluation or discarded inside fixed-point loops (LALR-2), states not re-queued when a merge adds lookaheads (LALR-3), stale memoised item lists (LALR-4), merge key = LR(0) kernel (LALR-5), closure/goto skeleton (LALR-6), one action per item (LALR-7), plus the table encoding (FMT-6) and the reduce sequence / sugar shapes of the runtime (ACT-1, ACT-3). " +
+			"NOT decided: that these pieces compute the LALR(1) automaton of every grammar.",
+		Run: func(c *Ctx) {
+			ruleLALR1(c)
+			ruleLALR2(c)
+			ruleLALR3(c)
+			ruleLALR4(c)
+			ruleLALR5(c)
+			ruleLALR6(c)
+			ruleLALR7(c)
+			ruleFMT6(c)
+			ruleACT1(c)
+			ruleACT3(c)
+		},
+	})
+	register(&PropSpec{
+		ID:    "C04",
+		Level: "other",
+		Explanation: "A missing lookahead hides a conflict and a spurious one invents it, so LALR-1..7 apply; in addition: every candidate action is kept (CFL-1), a cell with more than one action sets HasConflicts unless the precedence rule settled it and the flag is only ever set (CFL-2), precedence is confined to shift/reduce pairs of one rule with explicit levels (CFL-3), and generation aborts with a diagnostic (CFL-4). " +
+			"NOT decided: the iff over all grammars; isomorphism with a reference LALR(1) automaton.",
+		Run: func(c *Ctx) {
+			ruleLALR1(c)
+			ruleLALR2(c)
+			ruleLALR3(c)
+			ruleLALR4(c)
+			ruleLALR5(c)
+			ruleLALR6(c)
+			ruleLALR7(c)
+			ruleCFL1(c)
+			ruleCFL2(c)
+			ruleCFL3(c)
+			ruleCFL4(c)
+		},
+	})
 }
